@@ -561,6 +561,9 @@ package xmss
 //@   ensures result == 0 && idxOf(sk) == newIdx
 //@   assigns sk[0:4], bdsAll(bdsState)
 //@   loop 1 invariant currentIdx <= j && j <= newIdx && currentIdx == old(idxOf(sk)) && numElems == spec.pow2(params.h)
+//@   loop 1 invariant[C08,C02] ncalls("xmss.bdsRound", 1) == j - currentIdx && ncalls("xmss.bdsTreeHashUpdate", 1) == j - currentIdx
+//@   after xmss.bdsRound 1 assert[C08,C02] j == currentIdx + ncalls("xmss.bdsRound", 1) - 1
+//@   exit[C08,C02] result == 0 ==> ncalls("xmss.bdsRound", 1) == newIdx - old(idxOf(sk)) && ncalls("xmss.bdsTreeHashUpdate", 1) == newIdx - old(idxOf(sk))
 
 //@ func xmssFastSignMessage
 //@   names hashFunction params sk bdsState message |  | n idx skSeed skPRF pubSeed idxBytes32 hashKey R otsAddr msgHash err sigMsgLen sigMsg i otsSeed
